@@ -217,7 +217,8 @@ def collision_universe(rng):
     p, q = rng.choice([("a", "b"), ("x", "y"), ("name", "value")])
     fs = [FieldSpec(p, "Prop", ptype="str"), FieldSpec(q, "Prop", ptype="str"),
           FieldSpec("kids", "Tup", child_types=("Leaf" + tag,), has_default=True)]
-    u = Universe([ClassSpec("Leaf" + tag, None, fs)], "Color" + tag, rng.random() < 0.5, 900000 + rng.randint(0, 10**6))
+    # the class refers to itself in `kids`: that needs postponed annotations
+    u = Universe([ClassSpec("Leaf" + tag, None, fs)], "Color" + tag, True, 900000 + rng.randint(0, 10**6))
     return u, p, q
 
 
